@@ -278,7 +278,7 @@ def obligations(tier):
         Obligation('O5-sort-key', o_label_never_in_arithmetic, code=['propka/conformation_container.py:ConformationContainer.sort_atoms_key'],
                    bounds='two residue numbers in [-999,9999] in one chain', claim_doc='order of numbers kept; key difference = 1000 * number difference'),
     ]
-    BR = ('pair_CYS_CYS_bridge#41-43', 'pair_CYS_CYS_bridge#57-59', True)     # a disulfide between the two chains
+    BR = ('pair_CYS_CYS_bridge:41-43', 'pair_CYS_CYS_bridge:57-59', True)     # a disulfide between the two chains
     for first, second, ter in ([('cterm_PHE', 'tri_ASP', False), ('pair_LYS_ASP', 'tri_HIS', True), BR] if tier == 'quick' else
                                [BR, ('cterm_PHE', 'tri_ASP', False), ('cterm_PHE', 'tri_ASP', True), ('pair_LYS_ASP', 'tri_HIS', True), ('pair_LYS_ASP', 'tri_HIS', False), ('cterm_PHE', 'pair_ASP_ARG', False), ('pep8', 'tri_LYS', False)]):
         obs.append(Obligation('O6-pipeline-relabelling[%s+%s%s]' % (first, second, ',TER' if ter else ',no TER'), mk_pipeline_relabelling(first, second, ter),
